@@ -127,6 +127,41 @@ func (lg *ledger) collect() []obligation {
 				}
 			case *ssa.Slice:
 				lg.sliceObligation(x, blk, mk)
+			case *ssa.MakeSlice:
+				// make([]T, n, m) panics for n < 0 or m < n ("len/cap out of range"); a size that is not a
+				// constant has to be known non-negative (a length, a count), and the capacity at least the length
+				nonNeg := func(v ssa.Value) (bool, string) {
+					if c, isC := v.(*ssa.Const); isC && c.Value != nil && constant.Sign(c.Value) >= 0 {
+						return true, ""
+					}
+					tb, to := lg.term(v)
+					if entails(lg.subFacts(lg.boundFacts(blk)), "0", tb, to) {
+						return true, ""
+					}
+					return false, lg.key(v) + " may be negative"
+				}
+				_, lenConst := x.Len.(*ssa.Const)
+				_, capConst := x.Cap.(*ssa.Const)
+				if !lenConst || !capConst {
+					mk("make with size "+lg.key(x.Len)+", "+lg.key(x.Cap), oblPred{"0 <= len <= cap", func() (bool, string) {
+						if ok, why := nonNeg(x.Len); !ok {
+							return false, why
+						}
+						if x.Cap == x.Len {
+							return true, ""
+						}
+						if ok, why := nonNeg(x.Cap); !ok {
+							return false, why
+						}
+						lb, lo := lg.term(x.Len)
+						cb, co := lg.term(x.Cap)
+						// len <= cap  <=>  lb + lo <= cb + co
+						if !entails(lg.subFacts(lg.boundFacts(blk)), lb, cb, co-lo) {
+							return false, "capacity may be smaller than the length"
+						}
+						return true, ""
+					}})
+				}
 			case *ssa.UnOp:
 				if x.Op == token.MUL {
 					// dereference of a pointer obtained from a type switch / assertion (may be a typed nil)
